@@ -355,9 +355,11 @@ func runCase(c Case, ctx *hx.Ctx) *hx.Failure {
 				return hx.Failf("C10/harness", "Exec: %v", err)
 			}
 			if reached {
-				if !r.storedT0[op.Q].IsZero() && !c.Lazy && time.Since(r.storedT0[op.Q]) < 2*time.Second {
+				if !r.storedT0[op.Q].IsZero() && time.Since(r.storedT0[op.Q]) < 2*time.Second {
 					// stored before, kept >= 5 s (TTL >= 100 s; NXDOMAIN 30 s; SERVFAIL 5 s), 3 keys in a 1024 cache: nothing allows a miss
-					return hx.Failf("C10/unexpected-miss", "question %d was stored %v ago but was not served from cache", op.Q, time.Since(r.storedT0[op.Q]))
+					// Not a violation of C10 (a miss shares nothing), but a run without hits says nothing about isolation:
+					// counted, and a run whose cases are all like this ends as inconclusive (vacuous) in the driver.
+					ctx.Class("miss-although-stored")
 				}
 				if r.storedT0[op.Q].IsZero() {
 					r.storedT0[op.Q] = t0
